@@ -139,7 +139,7 @@ impl Container {
         let directory_pack = Arc::new(DirectoryPack::new(
             locator
                 .locate(pack_info.uuid, &pack_info.pack_location)?
-                .unwrap(),
+                .ok_or_else(|| -> Error { format_error!("Directory pack cannot be found") })?,
         )?);
         let value_storage = directory_pack.create_value_storage();
         let entry_storage = directory_pack.create_entry_storage();
